@@ -304,16 +304,20 @@ retry:
 		return fillErrs(len(multi), err)
 	}
 	resp = c.wire.DoMulti(ctx, multi...).s
-	for i, cmd := range multi {
-		if retryable && isRetryable(resp[i].Error(), c.wire, ctx) {
-			shouldRetry := c.retryHandler.WaitOrSkipRetry(
-				ctx, attempts, multi[i], resp[i].Error(),
-			)
-			if shouldRetry {
-				attempts++
-				goto retry
+	if retryable {
+		for i := range multi {
+			if isRetryable(resp[i].Error(), c.wire, ctx) {
+				shouldRetry := c.retryHandler.WaitOrSkipRetry(
+					ctx, attempts, multi[i], resp[i].Error(),
+				)
+				if shouldRetry {
+					attempts++
+					goto retry
+				}
 			}
 		}
+	}
+	for i, cmd := range multi { // recycle only once no retry can re-send the batch
 		if resp[i].NonRedisError() == nil {
 			cmds.PutCompleted(cmd)
 		}
